@@ -31,6 +31,7 @@ META = {
 }
 META["explanation"] += '  Segment names are mixed (s0, s1-alt, s1.2, b#0|x: word prefixes of one another, characters outside [A-Za-z0-9_]) and every second read name carries a comment after a blank.  tokens/cli/index.py: the path tokenizers of index.py decided as languages by z3.'
 META["explanation"] += '  The comment of every second read name holds multi-byte characters; no-final-newline variants.'
+META["explanation"] += '  run/unstable/*/colon-contig: a segment on a contig called HG002:hap1:ctg7.'
 
 setup_done = []
 
@@ -65,6 +66,9 @@ def harnesses(tier):
                 hs.append({"id": "run/%s/%s/m%d" % (form, "bgzf" if gz else "text", mi),
                            "params": {"kind": "run", "form": form, "gz": gz, "walks": m}, "timeout": 600,
                            "twin": (mi, form, gz) == (1, "stable", 0)})
+    for gz in (0, 1):
+        hs.append({"id": "run/unstable/%s/colon-contig" % ("bgzf" if gz else "text"), "params": {"kind": "run", "form": "unstable", "gz": gz, "walks": [">s1>c9>s2", "<c9"]},
+                   "timeout": 600})
     for mi in (1, 2, 3):
         hs.append({"id": "run-revorder/stable/text/m%d" % mi, "params": {"kind": "run", "form": "stable", "gz": 0, "walks": WALK_MENUS[mi], "revorder": True},
                    "timeout": 600})
